@@ -310,4 +310,6 @@ def r48k(F):
     return r
 
 
-RULES = [r48, r48m, r48s, r57, r48k]
+from .c09 import r26l as _r26l
+
+RULES = [r48, r48m, r48s, r57, r48k, _r26l]
